@@ -206,7 +206,7 @@ func rawFrame(n *kit.Node, src, dst netip.Addr, mt frame.MessageType, sw []byte,
 func TestC10(t *testing.T) {
 	env := kit.GetEnv()
 	rep := kit.NewReport("C10", env)
-	rep.Rule = "(a) converged meshes (all connected graphs on 2-4 routers, lines/rings/stars/trees/grids up to 8 quick / 16 thorough routers, 1- and 2-byte labels): for every ordered pair (A,B) a routed ping-pong from A to B followed to quiescence; (a2) network traffic between every pair of tun-equipped routers across relays with and without a tun interface; (a3) histories on rings, grids and complete graphs: one-way traffic from every router to B, loss of each redundant link (both ends unregister it and flood disconnect notices), traffic from every router to B again, re-announcement by everyone, traffic again - each frame handed to B exactly once whenever the routers' own tables lead from A to B hop by hop over registered links; (b) adversarial forwarding state on complete graphs of 2-4 (thorough 5) routers: every assignment of 'next hop towards D' per router (includes every cycle and dead end), x initial TTL {0,1,2,3,32,255} x message class {signed, encrypted} x entry router/link, for routed frames; label-switched frames with switch blocks over {valid path, cyclic, too short for the return label, zero-first, dangling label, non-terminated} x label maps; every link crossing of the injected frame is checked (TTL strictly decreasing, crossings <= TTL0-1, bytes preserved outside TTL/flow/switch block); non-trivial = frame crossed at least one link or had to be refused; distinct = distinct (world, injected frame)"
+	rep.Rule = "(a) converged meshes (all connected graphs on 2-4 routers, lines/rings/stars/trees/grids up to 8 quick / 16 thorough routers, 1- and 2-byte labels): for every ordered pair (A,B) a routed ping-pong from A to B followed to quiescence; (a2) network traffic between every pair of tun-equipped routers across relays with and without a tun interface; (a3) histories on rings, grids and complete graphs: one-way traffic from every router to B, loss of each redundant link (both ends unregister it and flood disconnect notices), traffic from every router to B again, re-announcement by everyone, traffic again - each frame handed to B exactly once whenever the routers' own tables lead from A to B hop by hop over registered links; (b) adversarial forwarding state on complete graphs of 2-4 (thorough 5) routers: every assignment of 'next hop towards D' per router (includes every cycle and dead end), x initial TTL {0,1,2,3,32,255} x message class {signed, encrypted} x entry router/link, for routed frames injected over a link, and for frames each router originates itself under the same forwarding state (at most 31 crossings, TTL below 32 on the first link and strictly decreasing); label-switched frames with switch blocks over {valid path, cyclic, too short for the return label, zero-first, dangling label, non-terminated} x label maps; every link crossing of the injected frame is checked (TTL strictly decreasing, crossings <= TTL0-1, bytes preserved outside TTL/flow/switch block); non-trivial = frame crossed at least one link or had to be refused; distinct = distinct (world, injected frame)"
 	rep.Assumptions = []string{
 		"transit frames are relayed without authentication (by design), so injected frames need no valid seal",
 		"deliveries are sequential (one handler invocation at a time), FIFO in (a); a single unicast frame has one frame in flight at a time, so its delivery order is unique",
@@ -263,6 +263,20 @@ func TestC10(t *testing.T) {
 							rep.Outcome("pingpong/failed")
 						} else {
 							rep.Outcome("pingpong/ok")
+						}
+						// frames originated by A and B start below 32 on their first link and count down.
+						last := map[[32]byte]int{}
+						for _, fl := range ms.w.Log {
+							var k [32]byte
+							copy(k[:], fl.Bytes[16:48])
+							prev, seen := last[k]
+							if !seen {
+								prev = 32
+							}
+							if ttl := int(fl.Bytes[1]); ttl >= prev || ttl == 0 {
+								rep.Violate(classOfGraph(g)+"/originated-ttl", fmt.Sprintf("frame %s->%s crossed a link with TTL %d after %d: %s", fl.From.Name, fl.To.Name, ttl, prev, desc), desc)
+							}
+							last[k] = int(fl.Bytes[1])
 						}
 						// every frame emitted must originate at A or B; B is the only responder.
 						for _, fl := range ms.w.Log {
@@ -496,6 +510,60 @@ func TestC10(t *testing.T) {
 					}
 				}
 			}
+			// frames the routers ORIGINATE themselves (initial TTL 32, no receive
+			// link) under the same forwarding state: at most 31 crossings, TTL
+			// below 32 and strictly decreasing on every link.
+			synctest.Test(t, func(t *testing.T) {
+				ms := build(complete(n), false)
+				for i, h := range nh {
+					if h < 0 {
+						continue
+					}
+					hops := []m.SwitchHop{
+						{Router: ms.nodes[i].Identity().IP, Delay: 5, ForwardLabel: 2},
+						{Router: ms.nodes[h].Identity().IP, Delay: 5, ForwardLabel: 3, ReturnLabel: 4},
+						{Router: fakeDst, ReturnLabel: 9},
+					}
+					sp := m.SwitchPath{Hops: hops}
+					sp.CalculateTotals()
+					_, err := ms.nodes[i].RoutingTable().AddRoute(m.RoutingTableEntry{DstIP: fakeDst, NextHop: ms.nodes[h].Identity().IP, Path: sp, Source: m.RouteSourceGossip, Expires: time.Now().Add(time.Hour)})
+					must(err)
+				}
+				for i := range ms.nodes {
+					ms.w.Log = nil
+					_, _, err := ms.nodes[i].Router().PingPong.Send(fakeDst, false, 0)
+					steps := ms.drain(20000)
+					evals++
+					desc := fmt.Sprintf("complete%d nexthops=%v frame originated by N%d (send error: %v)", n, nh, i, err)
+					if steps >= 20000 {
+						rep.Violate("originated/not-draining", "network did not drain: "+desc, desc)
+					}
+					src := ms.nodes[i].Identity().IP.As16()
+					dst := fakeDst.As16()
+					nc, prev := 0, 32
+					for _, fl := range ms.w.Log {
+						if !bytes.Equal(fl.Bytes[16:32], src[:]) || !bytes.Equal(fl.Bytes[32:48], dst[:]) {
+							continue
+						}
+						nc++
+						ttl := int(fl.Bytes[1])
+						if ttl >= prev {
+							rep.Violate("originated/ttl-not-decreasing", fmt.Sprintf("crossing %d has TTL %d after %d: %s", nc, ttl, prev, desc), desc)
+						}
+						if ttl == 0 {
+							rep.Violate("originated/ttl-zero-on-wire", fmt.Sprintf("frame crossed a link with TTL 0 (crossing %d): %s", nc, desc), desc)
+						}
+						prev = ttl
+					}
+					if nc > 31 {
+						rep.Violate("originated/too-many-crossings", fmt.Sprintf("a frame the router originated crossed %d links: %s", nc, desc), desc)
+					}
+					if nc > 0 {
+						nontrivial++
+					}
+					rep.Outcome(fmt.Sprintf("originated/crossings=%d", nc))
+				}
+			})
 			for _, ttl := range []uint8{0, 1, 2, 3, 32, 255} {
 				for _, mt := range []frame.MessageType{frame.NetworkTraffic, frame.RouterPing} {
 					synctest.Test(t, func(t *testing.T) {
